@@ -456,6 +456,9 @@ func runC12(c *core.Ctx, o Options) {
 		})
 		c.Check(ok, "d", "makeHeader", "pipeline setters are emitted in sorted key order", mh.Pos(), "sortedMapKeys(RequiredHeaderFields)", "the header's pipeline setters are emitted in map order")
 	}
+	// ---- (d′) the parsed schema is read-only for the generator: a second run over the same document (another output
+	// directory, a determinism check) must see the document the first run saw
+	checkSchemaReadOnly(c, "d", gen)
 	// ---- (e) package name
 	ex := c.Func("generator", "Generator.Execute")
 	if c.Anchor("Execute", ex != nil, "Generator.Execute", posOf(ex)) {
@@ -730,4 +733,154 @@ func checkTypeTable(c *core.Ctx, rule string, gen *types.Package) {
 		c.Check(ok && got == goT, rule, "allowedTypes", fmt.Sprintf("%s ↦ %s agrees with fix.%s", k, goT, k), token.NoPos, "fix."+k+".Value() has Go type "+got,
 			fmt.Sprintf("the generator maps %s to Go type %s but fix.%s holds %s: generated getters would assert the wrong type and panic", k, goT, k, got))
 	}
+}
+
+// checkSchemaReadOnly: no function of package generator outside the XML decoding writes to memory of the parsed document: no store
+// to a field of a schema struct, no store to an element of a schema slice, and no append onto a re-slice of a schema slice (the
+// in-place filter idiom s[:0], which overwrites the elements the document still refers to). Schema types are the struct types
+// declared in the file that declares Doc; a slice counts as the document's unless it was made in the same function.
+func checkSchemaReadOnly(c *core.Ctx, rule string, gen *ssa.Package) {
+	docObj := gen.Pkg.Scope().Lookup("Doc")
+	if !c.Anchor("schema document type", docObj != nil, "generator.Doc", token.NoPos) {
+		return
+	}
+	schemaFile := c.Fset.Position(docObj.Pos()).Filename
+	isSchemaType := func(t types.Type) bool {
+		for {
+			switch u := t.(type) {
+			case *types.Pointer:
+				t = u.Elem()
+				continue
+			case *types.Slice:
+				t = u.Elem()
+				continue
+			}
+			break
+		}
+		n, ok := t.(*types.Named)
+		if !ok || n.Obj().Pkg() != gen.Pkg {
+			return false
+		}
+		if _, isStruct := n.Underlying().(*types.Struct); !isStruct {
+			return false
+		}
+		return c.Fset.Position(n.Obj().Pos()).Filename == schemaFile
+	}
+	// fresh: the slice was made in this function (make, nil, literal, append chain onto a fresh slice)
+	var fresh func(v ssa.Value, depth int) bool
+	fresh = func(v ssa.Value, depth int) bool {
+		if depth > 10 {
+			return false
+		}
+		switch x := v.(type) {
+		case *ssa.MakeSlice:
+			return true
+		case *ssa.Const:
+			return true
+		case *ssa.Slice:
+			if al, ok := x.X.(*ssa.Alloc); ok && al.Heap {
+				return true
+			}
+			return fresh(x.X, depth+1)
+		case *ssa.Phi:
+			for _, e := range x.Edges {
+				if e != v && !fresh(e, depth+1) {
+					return false
+				}
+			}
+			return true
+		case *ssa.Call:
+			if b, ok := x.Call.Value.(*ssa.Builtin); ok && b.Name() == "append" {
+				return fresh(x.Call.Args[0], depth+1)
+			}
+		case *ssa.UnOp:
+			if al, ok := x.X.(*ssa.Alloc); ok && x.Op == token.MUL {
+				// a local variable: fresh if every value stored into it is
+				okAll, n := true, 0
+				for _, ref := range *al.Referrers() {
+					if st, isSt := ref.(*ssa.Store); isSt && st.Addr == ssa.Value(al) {
+						n++
+						if !fresh(st.Val, depth+1) {
+							okAll = false
+						}
+					}
+				}
+				return okAll && n > 0
+			}
+		}
+		return false
+	}
+	nFn, nSites := 0, 0
+	for _, fn := range pkgFuncs(gen) {
+		if c.Fset.Position(fn.Pos()).Filename == schemaFile {
+			continue // the XML decoding itself
+		}
+		nFn++
+		an.AllInstrs(fn, func(in ssa.Instruction) {
+			switch x := in.(type) {
+			case *ssa.Store:
+				switch a := x.Addr.(type) {
+				case *ssa.FieldAddr:
+					if isSchemaType(a.X.Type()) && !an.IsConstructorBase(a.X, fn) {
+						nSites++
+						c.Ob(rule, fn.Name(), "store to schema field "+an.Render(a), x.Pos()).Fail("the generator writes to the parsed document (%s): a second generation from the same document sees a different schema", an.Render(a))
+					}
+				case *ssa.IndexAddr:
+					if isSchemaType(a.X.Type()) && !fresh(a.X, 0) {
+						nSites++
+						c.Ob(rule, fn.Name(), "store to schema slice element "+an.Render(a), x.Pos()).Fail("the generator overwrites an element of a slice of the parsed document")
+					}
+				}
+			case *ssa.Call:
+				b, ok := x.Call.Value.(*ssa.Builtin)
+				if !ok || b.Name() != "append" || !isSchemaType(x.Type()) {
+					return
+				}
+				// the base of the append chain, through loop-carried variables
+				var findReslice func(v ssa.Value, depth int, seen map[ssa.Value]bool) *ssa.Slice
+				findReslice = func(v ssa.Value, depth int, seen map[ssa.Value]bool) *ssa.Slice {
+					if depth > 10 || seen[v] {
+						return nil
+					}
+					seen[v] = true
+					switch y := v.(type) {
+					case *ssa.Slice:
+						if al, isAl := y.X.(*ssa.Alloc); isAl && al.Heap {
+							return nil
+						}
+						if !fresh(y.X, 0) {
+							return y
+						}
+					case *ssa.Phi:
+						for _, e := range y.Edges {
+							if r := findReslice(e, depth+1, seen); r != nil {
+								return r
+							}
+						}
+					case *ssa.Call:
+						if b2, isB := y.Call.Value.(*ssa.Builtin); isB && b2.Name() == "append" {
+							return findReslice(y.Call.Args[0], depth+1, seen)
+						}
+					case *ssa.UnOp:
+						if al, isAl := y.X.(*ssa.Alloc); isAl && y.Op == token.MUL {
+							for _, ref := range *al.Referrers() {
+								if st, isSt := ref.(*ssa.Store); isSt && st.Addr == ssa.Value(al) {
+									if r := findReslice(st.Val, depth+1, seen); r != nil {
+										return r
+									}
+								}
+							}
+						}
+					}
+					return nil
+				}
+				if sl := findReslice(x.Call.Args[0], 0, map[ssa.Value]bool{}); sl != nil {
+					nSites++
+					c.Ob(rule, fn.Name(), "append onto a re-slice of a schema slice "+an.Render(sl), x.Pos()).Fail(
+						"append(%s, …) writes into the backing array of a slice that belongs to the parsed document (in-place filtering): the document's members are shifted and duplicated, so generating again from the same document — another output directory, a determinism check — fails or produces a different package", an.Render(sl))
+				}
+			}
+		})
+	}
+	c.Check(nFn >= 30, rule, "", "generator functions scanned for writes to the document", token.NoPos, fmt.Sprintf("%d functions, %d writing sites", nFn, nSites), fmt.Sprintf("only %d functions scanned", nFn))
 }
